@@ -1323,13 +1323,13 @@ impl UndoOperation for SwitchToFontPage {
 #[derive(Default)]
 pub struct SetFont {
     font_page: usize,
-    old: BitFont,
+    old: Option<BitFont>,
     new: BitFont,
 }
 
 impl SetFont {
     pub fn new(font_page: usize, old: BitFont, new: BitFont) -> Self {
-        Self { font_page, old, new }
+        Self { font_page, old: Some(old), new }
     }
 }
 
@@ -1339,11 +1339,18 @@ impl UndoOperation for SetFont {
     }
 
     fn undo(&mut self, edit_state: &mut EditState) -> EngineResult<()> {
-        edit_state.get_buffer_mut().set_font(self.font_page, self.old.clone());
+        match &self.old {
+            Some(font) => edit_state.get_buffer_mut().set_font(self.font_page, font.clone()),
+            None => {
+                edit_state.get_buffer_mut().remove_font(self.font_page);
+            }
+        }
         Ok(())
     }
 
     fn redo(&mut self, edit_state: &mut EditState) -> EngineResult<()> {
+        // remember what the slot really held (the caller passes the font of slot 0)
+        self.old = edit_state.get_buffer().get_font(self.font_page).cloned();
         edit_state.get_buffer_mut().set_font(self.font_page, self.new.clone());
         Ok(())
     }
@@ -1354,6 +1361,7 @@ pub struct AddFont {
     old_font_page: usize,
     new_font_page: usize,
     font: BitFont,
+    replaced: Option<BitFont>,
 }
 
 impl AddFont {
@@ -1362,6 +1370,7 @@ impl AddFont {
             old_font_page,
             new_font_page,
             font,
+            replaced: None,
         }
     }
 }
@@ -1373,11 +1382,15 @@ impl UndoOperation for AddFont {
 
     fn undo(&mut self, edit_state: &mut EditState) -> EngineResult<()> {
         edit_state.buffer.remove_font(self.new_font_page);
+        if let Some(font) = self.replaced.take() {
+            edit_state.buffer.set_font(self.new_font_page, font);
+        }
         edit_state.caret.set_font_page(self.old_font_page);
         Ok(())
     }
 
     fn redo(&mut self, edit_state: &mut EditState) -> EngineResult<()> {
+        self.replaced = edit_state.buffer.remove_font(self.new_font_page);
         edit_state.buffer.set_font(self.new_font_page, self.font.clone());
         edit_state.caret.set_font_page(self.new_font_page);
         Ok(())
@@ -1547,11 +1560,12 @@ impl UndoOperation for RemoveFont {
 pub struct ChangeFontSlot {
     from: usize,
     to: usize,
+    replaced: Option<BitFont>,
 }
 
 impl ChangeFontSlot {
     pub fn new(from: usize, to: usize) -> Self {
-        Self { from, to }
+        Self { from, to, replaced: None }
     }
 }
 
@@ -1564,6 +1578,9 @@ impl UndoOperation for ChangeFontSlot {
         let font = edit_state.buffer.remove_font(self.to);
         if let Some(font) = font {
             edit_state.buffer.set_font(self.from, font);
+            if let Some(replaced) = self.replaced.take() {
+                edit_state.buffer.set_font(self.to, replaced);
+            }
             Ok(())
         } else {
             Err(anyhow::anyhow!("empty font slot."))
@@ -1573,6 +1590,7 @@ impl UndoOperation for ChangeFontSlot {
     fn redo(&mut self, edit_state: &mut EditState) -> EngineResult<()> {
         let font = edit_state.buffer.remove_font(self.from);
         if let Some(font) = font {
+            self.replaced = edit_state.buffer.remove_font(self.to);
             edit_state.buffer.set_font(self.to, font);
             Ok(())
         } else {
